@@ -198,6 +198,24 @@ func (s *Sink) Close() (retErr error) {
 		return os.RemoveAll(s.snapTmpDirPath)
 	}
 
+	// The full-needed requirement may have been raised after this incremental
+	// snapshot's header was accepted (the FSM keeps applying commands while a
+	// snapshot is persisted). Installing it now would accept an incremental
+	// while a full snapshot is required and would then clear the requirement.
+	// Nothing has been moved yet, so simply refuse: the staged WAL files stay
+	// where they are.
+	if s.localWALDir != "" && s.stc != nil {
+		dueNext, err := s.stc.DueNext()
+		if err != nil {
+			os.RemoveAll(s.snapTmpDirPath)
+			return err
+		}
+		if dueNext == Full {
+			os.RemoveAll(s.snapTmpDirPath)
+			return fmt.Errorf("full snapshot needed before incremental can be applied")
+		}
+	}
+
 	defer func() {
 		if retErr != nil {
 			stats.Add(sinkErrors, 1)
@@ -242,7 +260,8 @@ func (s *Sink) Close() (retErr error) {
 		return fmt.Errorf("failed to rename snapshot directory: %v", err)
 	}
 
-	if s.stc != nil {
+	// Only a full snapshot satisfies a full-needed requirement.
+	if s.stc != nil && s.localWALDir == "" {
 		if err := s.stc.SetDueNext(Incremental); err != nil {
 			return fmt.Errorf("failed to set due next to incremental: %v", err)
 		}
